@@ -23,7 +23,7 @@ M = [
  ("c05-bad-flag-removed", ["C05"], CO, "                bad_flag(CompareOp::PartialOrd, CompareOp::Ord)?;\n                bad_flag(CompareOp::PartialEq, CompareOp::Ord)?;\n                bad_flag(CompareOp::Eq, CompareOp::Ord)?;", "                bad_flag(CompareOp::PartialOrd, CompareOp::Ord)?;\n                bad_flag(CompareOp::Eq, CompareOp::Ord)?;"),
  ("c05-question-mark-on-builder", ["C05"], IT, "DeriveItemKind::Clone => build_clone_for_struct(item, &e, &fields),", "DeriveItemKind::Clone => Ok(build_clone_for_struct(item, &e, &fields)?),"),
  ("c06-hash-key-from-partial-eq", ["C06"], CO, "    cmp.eq.push_bounds_to(use_bounds, wcb);\n    if let Some(key) = &cmp.eq.key {\n        return Ok(key.build_hash_stmt(this));\n    }", "    cmp.eq.push_bounds_to(use_bounds, wcb);\n    if let Some(key) = &cmp.partial_eq.key {\n        return Ok(key.build_hash_stmt(this));\n    }"),
- ("c17-eq-bound-emptied", ["C17"], CO, "fn _eq<T: ::core::cmp::Eq + ?Sized>(_this: &T) { }", "fn _eq<T: ?Sized>(_this: &T) { }"),
+ ("c17-eq-bound-emptied", ["C17"], CO, "fn _eq<T: ::core::cmp::Eq + ?::core::marker::Sized>(_this: &T) { }", "fn _eq<T: ?::core::marker::Sized>(_this: &T) { }"),
  ("c04-variant-stop-ignored", ["C04"], IT, "        let use_bounds = variant\n            .hattrs\n            .push_bounds_to_raw(use_bounds, false, kind, &mut wcb);\n        for field in &variant.fields {", "        let _ = variant\n            .hattrs\n            .push_bounds_to_raw(use_bounds, false, kind, &mut wcb);\n        for field in &variant.fields {"),
  ("c04-dotdot-ignored", ["C04"], BO, "Bound::Default(_) => self.default = true,", "Bound::Default(_) => {}"),
  ("c03-lifetime-params", ["C03"], SU, "                _ => {}\n            }\n        }\n        Self { idents }", "                GenericParam::Lifetime(t) => {\n                    idents.insert(t.lifetime.ident.clone());\n                }\n            }\n        }\n        Self { idents }"),
